@@ -123,6 +123,14 @@ def dstep (d : DState) : List String → DState × String
       let (reqs, m') := handleOnline d.fix rf d.m dv ps
       ({ d with m := m' }, "ok " ++ fmtReqs reqs)
     | _, _, _ => (d, "bad-op")
+  | ["sync", refused, dev, ports] =>
+    let dv : Option (Option Attrs) := if dev == "?" then some none else (parseAttrs dev).map some
+    let ps : Option (Option (List PortMsg)) := if ports == "?" then some none else (parseMsgs ports).map some
+    match dv, ps, parseNats refused with
+    | some dv, some ps, some rf =>
+      let (reqs, m') := provisionAndUpdate d.fix rf d.m dv ps
+      ({ d with m := m' }, "ok " ++ fmtReqs reqs)
+    | _, _, _ => (d, "bad-op")
   | ["poll", refused, dev, ports] =>
     let ps : Option (Option (List PortMsg)) := if ports == "?" then some none else (parseMsgs ports).map some
     match parseAttrs dev, ps, parseNats refused with
